@@ -234,7 +234,7 @@ pub fn check_history(h: &History, rec: &mut Rec, which: Which) -> Result<(), Str
 pub fn position_heavy(max_ops: usize) -> impl proptest::strategy::Strategy<Value = History> {
     use proptest::prelude::*;
     let pos_op = prop_oneof![
-        5 => (0u8..NUM_POSITIONS as u8, prop_oneof![3 => 10u128.pow(7)..=10u128.pow(10), 1 => 1u128..=10u128.pow(6)], 1u128..=60)
+        5 => (0u8..NUM_POSITIONS as u8, prop_oneof![3 => 10u128.pow(7)..=10u128.pow(9), 1 => 10u128.pow(9)..=10u128.pow(10), 1 => 1u128..=10u128.pow(6)], 1u128..=60)
             .prop_map(|(pos, c, lev)| {
                 let (_, coll_long) = position_sides(pos as usize);
                 Op::Increase { pos, collateral: if coll_long { c } else { c / 5 + 1 }, size_usd: lev }
